@@ -439,8 +439,11 @@ func (p *printer) writeSExpr(v *lisp.LVal, indent int) {
 		p.writeIndent(bracketCol + 1)
 	}
 	p.writeExpr(v.Cells[0], bracketCol+1)
-	p.writeTrailingComment(v.Cells[0])
 	firstArgCol := p.col + 1 // column where the first arg would go (after space)
+	// The column is taken BEFORE the head's trailing comment is written: with
+	// it included, "(a ;cc\n)" put its closing bracket under the end of the
+	// comment, one column further right for every byte of comment text.
+	p.writeTrailingComment(v.Cells[0])
 
 	// Look up indent rule based on head symbol
 	rule := &IndentRule{Style: IndentAlign}
